@@ -94,6 +94,7 @@ def parse(lines: list,
         # Data bytes of this line; only kept if the line matches the format
         line_data = bytearray()
         line_matches = True
+        in_padding = False
         # Note: sometimes last line of hexdump is shorter than line format
         if len(line) <= len(line_format):
             for i in range(len(line)):
@@ -102,19 +103,22 @@ def parse(lines: list,
                         line_matches = False
                         break
                 elif (line_format[i] == 'D'):
-                    if not hex_digit.match(line[i]):
-                        # Blank padding ends the data of a short last line;
-                        # anything else means this is not a hex dump line
+                    if in_padding or not hex_digit.match(line[i]):
+                        # Blank padding ends the data of a short last line
+                        # and fills the rest of the data columns; anything
+                        # else there means this is not a hex dump line
                         if line[i] != ' ':
                             line_matches = False
-                        break
+                            break
+                        in_padding = True
+                        continue
                     if prev_byte_is_high_nibble:
                         byte_val = bytes.fromhex(line[(i-1):(i+1)])
                         line_data.extend(byte_val)
                         prev_byte_is_high_nibble = False
                     else:
                         prev_byte_is_high_nibble = True
-                elif (line_format[i] == 'C'):
+                elif (line_format[i] == 'C') or in_padding:
                     continue
                 elif (line_format[i] != line[i]):
                     line_matches = False
